@@ -210,6 +210,14 @@ impl Results {
         }
     }
 
+    /// C04: documented shape of a type without codec encoding
+    pub fn shape(&mut self, def: &str, ok: bool, what: &str) {
+        self.bump("C04");
+        if !ok {
+            self.fail("C04", def, "shape", format!("{def}: {what} is not what the registry holds"));
+        }
+    }
+
     pub fn c13(&mut self, _def: &str) {
         self.bump("C13");
     }
